@@ -75,8 +75,9 @@ theorem drop_app {α} {n : Nat} (a r : List α) (h : a.length = n) : (a ++ r).dr
 theorem app_inj {α} {a b c d : List α} (hl : a.length = c.length) (h : a ++ b = c ++ d) :
     a = c ∧ b = d := List.append_inj h hl
 
-/-- ASCII bytes of a string literal (Go: `[]byte("...")` for ASCII text). -/
-def ascii (s : String) : Bytes := s.toUTF8.toList
+/-- ASCII bytes of a string literal (Go: `[]byte("...")` for ASCII text; one
+byte per character, which is what UTF-8 gives for code points below 128). -/
+def ascii (s : String) : Bytes := s.toList.map (fun c => UInt8.ofNat c.toNat)
 
 def zeros (n : Nat) : Bytes := List.replicate n 0
 
